@@ -93,7 +93,8 @@ def alphabet(kind, args, seed):
     if kind == "hll":
         p, sd = args
         m = 1 << p
-        return [M3.craft(p, sd, 5 % m, 2), M3.craft(p, sd, 5 % m, 3), b""]
+        # two keys on one register, the empty key, and keys that END in NUL bytes
+        return [M3.craft(p, sd, 5 % m, 2), M3.craft(p, sd, 5 % m, 3), b"", b"a\x00", b"\x00"]
     if kind == "hh":
         from .hh_common import hh_alphabet
 
@@ -135,6 +136,13 @@ def diagrams(kind, alpha, tier):
     for n in range(0, 4):
         for lst in itertools.product(A, repeat=n):
             yield ("L", [("update", (list(lst),))], [("add", (k,)) for k in lst])
+    # LL: long lists (only from the empty start state): lengths around powers of two and
+    # multiples of 4096, where a batching / chunking implementation has its edges
+    if big:
+        for n in (255, 256, 257, 1024, 4095, 4096, 4097, 8192, 12288):
+            lst = [A[(i * i + i // 7) % len(A)] for i in range(n)]
+            yield ("LL", [("update", (lst,))], [("add", (k,)) for k in lst])
+            yield ("LL", [("update", (tuple(lst),))], [("add", (k,)) for k in lst])
     # D
     vals = [None, 1, 2, 3]
     for combo in itertools.product(vals, repeat=len(A)):
@@ -206,6 +214,8 @@ def task(arg):
     try:
         for evs, cap0 in starts:
             for name, pa, pb in diagrams(kind, alpha, tier):
+                if name == "LL" and evs:
+                    continue
                 restore(X, cap0)
                 restore(Y, cap0)
                 reset_draws(X)
